@@ -34,12 +34,15 @@ type scenario struct {
 	NMsgs   int      `json:"msgs"`
 	Backlog int      `json:"backlog"`
 	Stop    string   `json:"stop"`   // term | kill | inject | drainterm
-	Inject  string   `json:"inject"` // strace -e inject=... expression (stop == inject)
+	Inject  string   `json:"inject"` // kill point (stop == inject): "<class>:<k>" = SIGKILL right after the k-th return of a
+	//                                   call of that class (open|write|fsync|close|link|unlink on a data file, fin = FIN
+	//                                   written to nsqd); strace holds the process in delay_exit meanwhile
 	Pc      string   `json:"pc"`     // the FileLogger.tla program counter this kill point stands for
 	SpanMs  int      `json:"span_ms"`
 	StopMs  int      `json:"stop_ms"`
 	Hups    []int    `json:"hups_ms"`
 	Pre     int      `json:"preexisting"`
+	Foreign int      `json:"foreign_ms"` // >0: at this time somebody else creates, in the output dir, the names of the work files
 	Seed    int64    `json:"seed"`
 }
 
@@ -246,8 +249,15 @@ func runScenario(base string, sc scenario, bin string) (res scenResult) {
 	// the tool under strace
 	slog := filepath.Join(base, "strace.log")
 	args := []string{"-f", "-y", "-xx", "-s", "1048576", "-o", slog, "-e", "signal=none", "-e", "trace=" + straceSet}
+	killClass, killK := "", 0
 	if sc.Stop == "inject" {
-		args = append(args, "-e", "inject="+sc.Inject)
+		f := strings.SplitN(sc.Inject, ":", 2)
+		killClass = f[0]
+		killK, _ = strconv.Atoi(f[1])
+		call := map[string]string{"open": "openat", "write": "write", "fin": "write", "fsync": "fsync", "close": "close",
+			"link": "linkat", "unlink": "unlinkat"}[killClass]
+		// every return of that call is held for 40 ms: time for the watcher below to land the SIGKILL exactly there
+		args = append(args, "-e", "inject="+call+":delay_exit=40000")
 	}
 	args = append(args, bin,
 		"-nsqd-tcp-address", n.RealTCPAddr().String(), "-topic", topicName, "-channel", channel,
@@ -320,6 +330,14 @@ func runScenario(base string, sc scenario, bin string) (res scenResult) {
 		return exited
 	}
 
+	// kill point: watch the (line-buffered) strace log, SIGKILL on the k-th matching return
+	fired := make(chan bool, 1)
+	stopWatch := make(chan struct{})
+	defer close(stopWatch)
+	if killClass != "" {
+		go watchAndKill(slog, killClass, killK, []string{out, work}, tool, fired, stopWatch)
+	}
+
 	// timeline
 	type act struct {
 		at   int
@@ -341,6 +359,10 @@ func runScenario(base string, sc scenario, bin string) (res scenResult) {
 	if sc.Stop == "term" || sc.Stop == "kill" {
 		acts = append(acts, act{sc.StopMs, "stop", 0})
 	}
+	if sc.Foreign > 0 && o.WorkDir {
+		acts = append(acts, act{sc.Foreign, "foreign", 0})
+	}
+	var foreignPaths []string
 	sort.SliceStable(acts, func(a, b int) bool { return acts[a].at < acts[b].at })
 	start := time.Now()
 	stopped := false
@@ -357,6 +379,23 @@ func runScenario(base string, sc scenario, bin string) (res scenResult) {
 			}
 		case "hup":
 			signalTool(syscall.SIGHUP)
+		case "foreign":
+			ents, _ := os.ReadDir(work)
+			for _, e := range ents {
+				p := filepath.Join(out, e.Name())
+				c := []byte(fmt.Sprintf("foreign:%s:%08x\n", e.Name(), rng.Uint32()))
+				if o.Gzip {
+					c = gz(c)
+				}
+				f, err := os.OpenFile(p, os.O_WRONLY|os.O_CREATE|os.O_EXCL, 0644)
+				if err != nil {
+					continue // the tool got there first: nothing foreign then
+				}
+				f.Write(c)
+				f.Close()
+				preContent[p] = c
+				foreignPaths = append(foreignPaths, p)
+			}
 		case "stop":
 			if stopped {
 				continue
@@ -491,7 +530,7 @@ func runScenario(base string, sc scenario, bin string) (res scenResult) {
 			What: fmt.Sprintf("%d message(s) nsqd no longer owes are not in any readable output file after stop=%s (first: message %d id %s)", len(missing), sc.Stop, missing[0], ids[missing[0]]),
 			Scenario: sc, Detail: map[string]interface{}{"missing": missing, "owed": len(owed), "published": sc.NMsgs}})
 	}
-	for _, p := range prePaths {
+	for _, p := range append(append([]string(nil), prePaths...), foreignPaths...) {
 		c := preContent[p]
 		kept := false
 		for _, v := range views {
@@ -509,12 +548,19 @@ func runScenario(base string, sc scenario, bin string) (res scenResult) {
 	}
 
 	// ---- the syscall log as a behaviour of FileLoggerAbs
+	// files somebody else created meanwhile: for the tool they simply exist (it only stats / links those names)
+	for _, p := range foreignPaths {
+		model.pre(p, preContent[p])
+	}
 	recs, killed, err := parseStrace(slog)
 	if err != nil {
 		return fail("strace log: %v", err)
 	}
 	res.Killed = killed || res.ExitCode == 137
-	res.InjectFired = sc.Stop == "inject" && res.ExitCode == 137
+	select {
+	case res.InjectFired = <-fired:
+	default:
+	}
 	if err := model.apply(recs); err != nil {
 		return fail("syscall log not understood: %v", err)
 	}
@@ -539,4 +585,87 @@ func runScenario(base string, sc scenario, bin string) (res scenResult) {
 			"files": res.Files, "fins": res.Fins, "fsyncs": res.Fsyncs, "first_events": model.events[:min(len(model.events), 14)]}
 	}
 	return res
+}
+
+func hexOf(s string) string {
+	var b strings.Builder
+	for i := 0; i < len(s); i++ {
+		fmt.Fprintf(&b, "\\x%02x", s[i])
+	}
+	return b.String()
+}
+
+// watchAndKill tails the strace log and sends SIGKILL to the tool right after the k-th successful return of a
+// call of the given class (the tool is held by strace's delay_exit at that moment).
+func watchAndKill(path, class string, k int, dirs []string, pid int, fired chan<- bool, stop <-chan struct{}) {
+	call := map[string]string{"open": " openat(", "write": " write(", "fin": " write(", "fsync": " fsync(", "close": " close(",
+		"link": " linkat(", "unlink": " unlinkat("}[class]
+	var hexDirs []string
+	for _, d := range dirs {
+		hexDirs = append(hexDirs, hexOf(strings.TrimSuffix(d, "/")+"/"))
+	}
+	hexFin := hexOf("FIN ")
+	onData := func(line string) bool {
+		for _, h := range hexDirs {
+			if strings.Contains(line, h) {
+				return true
+			}
+		}
+		return false
+	}
+	var f *os.File
+	var buf []byte
+	tmp := make([]byte, 1<<16)
+	count := 0
+	for {
+		select {
+		case <-stop:
+			if f != nil {
+				f.Close()
+			}
+			return
+		default:
+		}
+		if f == nil {
+			f, _ = os.Open(path)
+			if f == nil {
+				time.Sleep(time.Millisecond)
+				continue
+			}
+		}
+		n, _ := f.Read(tmp)
+		if n == 0 {
+			time.Sleep(500 * time.Microsecond)
+			continue
+		}
+		buf = append(buf, tmp[:n]...)
+		for {
+			i := bytes.IndexByte(buf, '\n')
+			if i < 0 {
+				break
+			}
+			line := string(buf[:i])
+			buf = buf[i+1:]
+			if !strings.Contains(line, "(DELAYED)") || !strings.Contains(line, call) || strings.Contains(line, "= -1") {
+				continue
+			}
+			switch class {
+			case "fin":
+				if !strings.Contains(line, hexFin) {
+					continue
+				}
+			case "open", "write", "close":
+				if !onData(line) {
+					continue
+				}
+			}
+			count++
+			if count == k {
+				syscall.Kill(pid, syscall.SIGKILL)
+				fired <- true
+				f.Close()
+				return
+			}
+		}
+	}
 }
